@@ -170,7 +170,26 @@ Twice(id, k, tg, vprop) ==
   [id |-> id, prefix |-> IF tg = "sess" THEN "hs" ELSE "",
    info |-> [family |-> "api-twice", insess |-> tg = "sess", integLen |-> S.integLen, bmcSid |-> S.bmcSid],
    steps |-> StepsFor(Dup(Cmds(k)), k, tg, 1, vprop, TRUE)]
-Scripts == { Script("api-" \o tg \o "-" \o ToString(k) \o (IF rv THEN "r" ELSE "f"), Seed * 100 + k, tg, rv)
+\* a session and the connection it was opened on used alternately: commands on the connection keep using the null session,
+\* the session's sequence numbers continue across them, and no result depends on what the other path did before
+RECURSIVE MixedSteps(_, _, _, _, _)
+MixedSteps(cs, k, j, js, vprop) ==
+  IF cs = <<>> THEN <<>> ELSE
+  LET c == Head(cs)
+      rs == ReqRecs(c, k + j)
+      r == CHOOSE x \in rs : TRUE
+      onConn == (j + k) % 2 = 0
+      call == CallV(c, r, k + j, IF onConn THEN "conn" ELSE "sess", vprop, FALSE)
+  IN (IF rs = {} THEN <<>>
+      ELSE IF onConn THEN << [call EXCEPT !.exp = @ @@ [sessionless |-> TRUE]], ReactOut(c, k + j, j) >>
+      ELSE << call, ReactIn(c, k + j, js) >>)
+     \o MixedSteps(Tail(cs), k, j + 1, IF rs = {} \/ onConn THEN js ELSE js + 1, vprop)
+Mixed(id, k, rev) ==
+  [id |-> id, prefix |-> "hs", info |-> [family |-> "api-mixed", insess |-> TRUE, integLen |-> S.integLen, bmcSid |-> S.bmcSid],
+   steps |-> MixedSteps(IF rev THEN Rev(Cmds(k)) ELSE Cmds(k), k, 1, 1, IF rev THEN "C17" ELSE "C07")]
+Scripts == { Mixed("apix-" \o ToString(k) \o (IF rv THEN "r" ELSE "f"), Seed * 100 + k, rv) : k \in 1..(IF Tier = "thorough" THEN 24 ELSE 6), rv \in BOOLEAN }
+           \cup
+           { Script("api-" \o tg \o "-" \o ToString(k) \o (IF rv THEN "r" ELSE "f"), Seed * 100 + k, tg, rv)
              : k \in 1..(IF Tier = "thorough" THEN 40 ELSE 8), tg \in {"conn", "sess"}, rv \in BOOLEAN }
            \cup { Twice("api2-" \o tg \o "-" \o ToString(k) \o "-" \o vp, Seed * 100 + k, tg, vp)
                   : k \in 1..(IF Tier = "thorough" THEN 24 ELSE 6), tg \in {"conn", "sess"}, vp \in {"C07", "C17"} }
